@@ -117,16 +117,32 @@ type rec struct {
 }
 
 type scanner struct {
-	body bool
-	out  []tr.Ev
+	body  bool
+	out   []tr.Ev
+	limit int   // resource guard: a scan that visits more records than were ever written is cut short (recorded as an error)
+	end   int64 // resource guard: so is a scan that meets a record claiming to be larger than the whole file
+	trip  bool
 }
 
 func (s *scanner) VisitSuperBlock(super_block.SuperBlock) error { return nil }
 func (s *scanner) ReadNeedleBody() bool                         { return s.body }
 func (s *scanner) VisitNeedle(n *needle.Needle, offset int64, hdr, body []byte) error {
 	s.out = append(s.out, needleEv(n, offset))
+	if int64(n.Size) > s.end {
+		s.trip = true
+		return fmt.Errorf("driver: scan met a record of size %d in a file of %d bytes", n.Size, s.end)
+	}
+	if len(s.out) > s.limit {
+		s.trip = true
+		return fmt.Errorf("driver: scan visited %d records, only %d were written", len(s.out), s.limit-2)
+	}
 	return nil
 }
+
+// tripped counts scans cut short by a resource guard. Such a scan is recorded as failed (which no
+// specification admits); because every one of them may cost a gigabyte-sized allocation inside the
+// code under test, the driver stops issuing scans after three of them.
+var tripped int
 
 type file struct {
 	df   *backend.DiskFile
@@ -203,8 +219,15 @@ func (f *file) step(e tr.Ev) bool {
 		}
 		e["res"] = res
 	case "scan":
-		s := &scanner{body: tr.B(e, "body"), out: []tr.Ev{}}
+		if tripped >= 3 {
+			return false
+		}
+		end, _, _ := f.df.GetStat()
+		s := &scanner{body: tr.B(e, "body"), out: []tr.Ev{}, limit: len(f.recs) + 2, end: end}
 		err := storage.ScanVolumeFileFrom(f.ver, f.df, f.strt, s)
+		if s.trip {
+			tripped++
+		}
 		e["res"] = tr.Ev{"err": err != nil, "recs": s.out}
 	default:
 		tr.Fatal("unknown op %v", e["ev"])
